@@ -26,7 +26,7 @@ type Gen struct {
 
 func New(r *rand.Rand) *Gen {
 	return &Gen{R: r, Keys: []string{"a", "b", "c"}, Funcs: []string{"twice", "ident", "wrap", "nostr"},
-		Aggrs: []string{"count", "first", "echo", "sum"}, FuncP: 4}
+		Aggrs: []string{"count", "first", "echo", "sum", "keep"}, FuncP: 4}
 }
 
 func (g *Gen) key() string { return g.Keys[g.R.Intn(len(g.Keys))] }
